@@ -193,7 +193,9 @@ func genRoute() (string, error) {
 		}
 		hn := ps[1]
 		c := &CPS{Names: map[string]string{r: "m", hn: "headers"}, LenFn: map[string]string{r: "listLen"}}
-		c.Calls = map[string]func([]string) string{}
+		c.Calls = map[string]func([]string) string{
+			"strings.ToLower": func(a []string) string { return "(lower " + a[0] + ")" }, // so that a name normalised at lookup time is a fact of the model, not a broken translation
+		}
 		c.Calls2 = map[string]call2{hn + ".Get": {func(a []string) string { return "(headers " + a[0] + ")" }, "ok"}}
 		c.Ret = retExpr(c)
 		// the loop variable's method: <loopvar>.Value.Matches(x)
@@ -235,9 +237,18 @@ func genRoute() (string, error) {
 		fmt.Fprintf(&sb, "/-- `httpHeaderMatcherImpl.Matches`: request variables (method) then the header conjunction -/\ndef httpMatches (rx : RxOracle) (ctx headers : Str → Option Str) (m : HttpHeaderMatcher) : Bool :=\n  %s\n\n", body)
 	}
 
+	// ---- the header-matcher constructors (gen_c04b.go)
+	if err := c04bGenCtors(&sb, fu); err != nil {
+		return "", err
+	}
+
 	// ---- the three HTTP path rules' Match
 	fh, err := parse(fHTTP)
 	if err != nil {
+		return "", err
+	}
+	// ---- their common base: NewBaseHTTPRouteRule, matchRoute (gen_c04b.go)
+	if err := c04bGenHTTPBase(&sb, fh); err != nil {
 		return "", err
 	}
 	for _, k := range []struct{ typ, field, lean, leanField, ftype, doc string }{
@@ -255,7 +266,7 @@ func genRoute() (string, error) {
 		}
 		c := &CPS{Names: map[string]string{ps[0]: "ctx", ps[1]: "headers", r + "." + k.field: k.leanField, "types.VarPath": "varPath"}}
 		c.Calls = map[string]func([]string) string{
-			r + ".matchRoute":               func(a []string) string { return "(httpMatches rx ctx headers configHeaders)" },
+			r + ".matchRoute":               func(a []string) string { return "(matchRoute rx pq ctx headers base)" },
 			"strings.EqualFold":             func(a []string) string { return "(equalFold " + a[0] + " " + a[1] + ")" },
 			"strings.HasPrefix":             func(a []string) string { return "(hasPrefix " + a[0] + " " + a[1] + ")" },
 			r + ".regexPattern.MatchString": func(a []string) string { return "(rx regexPattern " + a[0] + ")" },
@@ -266,7 +277,7 @@ func genRoute() (string, error) {
 		if err != nil {
 			return "", fmt.Errorf("%s.Match: %v", k.typ, err)
 		}
-		fmt.Fprintf(&sb, "/-- `%s.Match` (%s); `true` = the rule is returned. `matchRoute` is `configHeaders.Matches` (query parameters are never configured) -/\ndef %s (rx : RxOracle) (ctx headers : Str → Option Str) (configHeaders : HttpHeaderMatcher) (%s : %s) : Bool :=\n  %s\n\n",
+		fmt.Fprintf(&sb, "/-- `%s.Match` (%s); `true` = the rule is returned. `base` is the embedded `BaseHTTPRouteRule` -/\ndef %s (rx : RxOracle) (pq : Str → List (Str × Str)) (ctx headers : Str → Option Str) (base : HttpBase) (%s : %s) : Bool :=\n  %s\n\n",
 			k.typ, k.doc, k.lean, k.leanField, k.ftype, body)
 	}
 
@@ -274,6 +285,9 @@ func genRoute() (string, error) {
 	{
 		frp, err := parse(fRPC)
 		if err != nil {
+			return "", err
+		}
+		if err := c04bGenRPCRule(&sb, frp); err != nil {
 			return "", err
 		}
 		fd := findFunc(frp, "RPCRouteRuleImpl", "Match")
